@@ -36,7 +36,7 @@ QUICK_WORKERS = 4
 WORKERS = 14
 
 PREPARE_ERRORS = ['invalid', 'syntax', 'unauthorized', 'config', 'server', 'overloaded', 'is_bootstrapping']
-TIMEOUT = 2.0
+REQUEST_TIMEOUT = 2.0
 
 
 def prepare_error_class(kind):
@@ -204,13 +204,13 @@ def run_history(seed):
         lbp.order = list(order)
         mark = len(env.net.wire_log)
         with env.world.inspect():       # callbacks are registered before any answer can be processed (no late-registration artefacts)
-            rec.execute_async(session, uid, statement=bound, timeout=TIMEOUT)
+            rec.execute_async(session, uid, statement=bound, timeout=REQUEST_TIMEOUT)
         env.world.settle(advance=False)
         with env.world.inspect():
             outs_before_time = len(rec.outcomes(uid))
             frames_before_time = sum(1 for q in env.net.wire_log[mark:] if q['op'] == 'EXECUTE' and q.get('query_id') == ps.query_id
                                      or q['op'] == 'PREPARE' and q.get('query') == text)
-        env.world.advance_to(env.world.now + TIMEOUT + 1.5)
+        env.world.advance_to(env.world.now + REQUEST_TIMEOUT + 1.5)
         env.world.settle(advance=False)
         lbp.order = None
         with env.world.inspect():
